@@ -419,6 +419,9 @@ fn validate(sc: &Scenario) -> Result<(), String> {
     Ok(())
 }
 
+/// one case in this many is a cluster case (see `gen_hours_scenario`)
+const CLUSTER_ARM_EVERY: u64 = 9_973;
+
 impl Check for C08 {
     fn id(&self) -> &'static str {
         "C08"
@@ -427,15 +430,16 @@ impl Check for C08 {
         "Purging tombstones is invisible and deletes stay deleted"
     }
     fn engine(&self) -> &'static str {
-        "E0 replica-network engine, hour-scale virtual time: 2-4 real OrSWotSet<2> + HLCTimestamp replicas, direct source + pull-repair source, per-node clock skew, purge at arbitrary replicas and moments; every scenario is executed twice (with and without its purge events)"
+        "E0 replica-network engine, hour-scale virtual time: 2-4 real OrSWotSet<2> + HLCTimestamp replicas, direct source + pull-repair source, per-node clock skew, purge at arbitrary replicas and moments; every scenario is executed twice (with and without its purge events). One case in 9 973 runs on the E2 cluster engine instead: complete nodes over simulated TCP for hours of simulated time"
     }
     fn rule(&self) -> &'static str {
-        "Cases: 2-4 replicas with wall-clock skew up to +-12 min, 4-40 put/delete ops on 1-5 keys spread over 0.5-8 simulated hours, each op delivered to every other replica after a seeded delay <= dmax (5 s .. 40 min; dmax + skew span < 59 min, re-validated), with duplicates, or - lost direct message - by a forced repair inside the same bound; 0-12 extra repairs whose snapshot/diff/removal/modification steps are separately delayed and ordered, and 0-16 purge events at arbitrary replicas and times (plus purges between closing rounds); one case in six is a \"straggler\" history (one replica deletes a key and keeps writing every 1-6 minutes for two more hours, part of its messages taking up to dmax of 20-40 min, with 6-14 purges 61-135 minutes after the delete: stamps of one origin arrive out of order around the purge of that delete); a fifth of the cases additionally merge full peer states (OrSWotSet::merge) at seeded times - those are judged on the local facts only. Oracles: local purge facts at every purge, and after every later event on that replica a probe that an operation of the deleting node carrying the purged delete's stamp is still refused; differential (identical scenario without purge events must end with identical live ids+timestamps on every replica); absolute last-writer-wins when the purge-free run matches it. Non-trivial = at least one tombstone was actually purged and >= 1 delete issued. Distinct = hash of the event-kind schedule and final state."
+        "Cases: 2-4 replicas with wall-clock skew up to +-12 min, 4-40 put/delete ops on 1-5 keys spread over 0.5-8 simulated hours, each op delivered to every other replica after a seeded delay <= dmax (5 s .. 40 min; dmax + skew span < 59 min, re-validated), with duplicates, or - lost direct message - by a forced repair inside the same bound; 0-12 extra repairs whose snapshot/diff/removal/modification steps are separately delayed and ordered, and 0-16 purge events at arbitrary replicas and times (plus purges between closing rounds); one case in six is a \"straggler\" history (one replica deletes a key and keeps writing every 1-6 minutes for two more hours, part of its messages taking up to dmax of 20-40 min, with 6-14 purges 61-135 minutes after the delete: stamps of one origin arrive out of order around the purge of that delete); a fifth of the cases additionally merge full peer states (OrSWotSet::merge) at seeded times - those are judged on the local facts only. Oracles: local purge facts at every purge, and after every later event on that replica a probe that an operation of the deleting node carrying the purged delete's stamp is still refused; differential (identical scenario without purge events must end with identical live ids+timestamps on every replica); absolute last-writer-wins when the purge-free run matches it. Non-trivial = at least one tombstone was actually purged and >= 1 delete issued. Distinct = hash of the event-kind schedule and final state. Cluster arm (one case in 9 973): 2-4 complete nodes (real store, keyspace actors and their hourly purge pass, poller every 5-10 s, distributor, RPC stack; harness-made views) for 2.5-4.5 simulated hours: 2-3 bursts of put/put_many/del/del_many on 4-14 ids, 61-80 min apart, each with a half in which seeded nodes believe they have no peers (their writes travel by anti-entropy) and a half with complete views (direct replication), so that both sources of the sets see every origin and tombstones become purgeable; link holds and outages with restart of at most 6 min, skew within +-5 min, clock jumps, a failing storage call, storage latency up to 400 ms, writes landing within -0.3..+2.5 s of the full hour, and (70 % of the nodes) a store whose remove_tombstones removes whatever row a key names. Oracle: at every quiet point (>= 8 min after the last fault or operation) and after the closing cycles every running node holds exactly the last-writer-wins live documents of the operations issued so far; set == store on every node at the end. Non-trivial there = the nodes' own purge pass removed at least one tombstone."
     }
     fn assumptions(&self) -> Vec<String> {
         vec![
             "timely histories only (statement precondition): enforced by construction and re-validated per case; otherwise exit 2, never a violation".into(),
-            "the replication glue (will_apply gate, timestamp-sorted batches, modifications fetched at apply time) is re-stated in the harness at set level; the real actors/services are exercised by C01/C02".into(),
+            "E0 cases: the replication glue (will_apply gate, timestamp-sorted batches, modifications fetched at apply time) is re-stated in the harness at set level; the cluster arm runs the real actors/services/purge task".into(),
+            "cluster arm: timeliness is validated per scenario (skew within +-5 min, holds/outages <= 6 min, poller <= 10 s, quiet points >= 8 min after the last fault or operation, no replayed messages); chitchat is a stub (harness-made views)".into(),
         ]
     }
     fn components(&self) -> Vec<(&'static str, &'static str)> {
@@ -443,17 +447,22 @@ impl Check for C08 {
             ("datacake-crdt OrSWotSet (insert/delete/diff/purge_old_deletes/will_apply) and HLCTimestamp (send/recv)", "real"),
             ("wall clocks", "injected per node (skew) via hook H1"),
             ("network, repair scheduling", "simulated discrete-event queue"),
-            ("keyspace actor / storage / RPC", "stub: gating logic re-stated at set level"),
+            ("keyspace actor / storage / RPC", "E0 cases: stub (gating logic re-stated at set level). Cluster arm: real store handle, keyspace actors + hourly purge task, poller, distributor, services and clients, RPC over simulated TCP (turmoil, vendored); SimStorage outside the hosts; harness-made membership views"),
         ]
     }
     fn budget(&self, tier: Tier) -> Budget {
         match tier {
-            Tier::Quick => Budget { wall_secs: 45, max_cases: 500_000, checkpoint_every: 1024, workers: 16 },
+            Tier::Quick => Budget { wall_secs: 60, max_cases: 500_000, checkpoint_every: 1024, workers: 16 },
             Tier::Thorough => Budget { wall_secs: 900, max_cases: 20_000_000, checkpoint_every: 1024, workers: 16 },
         }
     }
     fn generate(&self, seed: u64, idx: u64, _tier: Tier) -> Value {
         let mut rng = rng_from(case_seed(seed, idx));
+        // cluster arm: complete nodes (real store, actors, hourly purge pass, poller, distributor,
+        // RPC stack) running for hours of simulated time
+        if idx % CLUSTER_ARM_EVERY == CLUSTER_ARM_EVERY - 1 {
+            return serde_json::json!({ "cluster": crate::e2::c01::gen_hours_scenario(&mut rng) });
+        }
         let n = rng.gen_range(2..=4usize);
         let max_skew: i64 = *[0i64, 60_000, 300_000, 720_000].get(rng.gen_range(0..4)).unwrap();
         let skew_ms: Vec<i64> = (0..n).map(|_| if max_skew == 0 { 0 } else { rng.gen_range(-max_skew..=max_skew) }).collect();
@@ -564,7 +573,46 @@ impl Check for C08 {
         let base_ms = rng.gen_range(1_000_000_000u64..60_000_000_000) / 4 * 4;
         serde_json::to_value(Scenario { replicas: n, skew_ms, dmax_ms, base_ms, events, purge_in_closing: rng.gen_bool(0.5) }).unwrap()
     }
+    fn isolate(&self, scenario: &Value) -> bool {
+        scenario.get("cluster").is_some()
+    }
     fn execute(&self, scenario: &Value) -> Outcome {
+        if let Some(c) = scenario.get("cluster") {
+            let sc: crate::e2::c01::Scenario = match serde_json::from_value(c.clone()) {
+                Ok(s) => s,
+                Err(e) => return Outcome::invalid(format!("bad cluster scenario: {e}")),
+            };
+            return match crate::e2::c01::run_cluster(&sc, "C08") {
+                Ok(mut r) => {
+                    crate::e2::c01::judge_convergence(&mut r);
+                    for v in r.out.violations.iter_mut() {
+                        if let Some(rest) = v.class.strip_prefix("C01/") {
+                            v.class = format!("C08/cluster/{rest}");
+                        }
+                    }
+                    if !r.checkpoint_diffs.is_empty() {
+                        let lost = r.checkpoint_diffs.iter().any(|d| d.contains("is a put at"));
+                        let back = r.checkpoint_diffs.iter().any(|d| d.contains("is a delete at"));
+                        let class = match (back, lost) {
+                            (true, _) => "C08/cluster/deleted-document-live-at-a-quiet-point",
+                            (false, true) => "C08/cluster/live-document-lost-or-stale-at-a-quiet-point",
+                            _ => "C08/cluster/unwritten-document-live-at-a-quiet-point",
+                        };
+                        r.out.violate(class, r.checkpoint_diffs.iter().take(4).cloned().collect::<Vec<_>>().join("; "));
+                    }
+                    for (n, diffs) in r.set_store_diffs.clone() {
+                        if !diffs.is_empty() {
+                            r.out.violate("C08/cluster/set-and-store-disagree-at-quiescence", format!("node {n}: {}", diffs.join("; ")));
+                        }
+                    }
+                    let purged = r.out.probes.get("tombstones_purged_by_the_nodes_own_pass").copied().unwrap_or(0);
+                    r.out.nontrivial = purged > 0;
+                    r.out.probe("cluster_arm_case");
+                    r.out
+                },
+                Err(e) => Outcome::invalid(e),
+            };
+        }
         let sc: Scenario = match serde_json::from_value(scenario.clone()) {
             Ok(s) => s,
             Err(e) => return Outcome::invalid(format!("bad scenario: {e}")),
@@ -667,6 +715,9 @@ impl Check for C08 {
         out
     }
     fn shrink(&self, sc: &Value) -> Vec<Value> {
+        if let Some(c) = sc.get("cluster") {
+            return crate::e2::c01::shrink_cluster(c).into_iter().map(|v| serde_json::json!({ "cluster": v })).collect();
+        }
         let mut c = generic_shrink(sc);
         if let Ok(s) = serde_json::from_value::<Scenario>(sc.clone()) {
             if s.skew_ms.iter().any(|x| *x != 0) {
